@@ -459,6 +459,19 @@ MAIN_SHAPES = {
                          "class MyE(DirectedEdge):\n    def weight(self):\n        return 7\n",
 }
 
+# functions defined in __main__ (pickled by value too) that the graph refers to: (class body, set-up, check)
+_PLAIN = MAIN_SHAPES["plain-method"]
+MAIN_EXTRAS = {
+    "lambda-attribute": (_PLAIN, "a.fn = lambda x: x + 1\n", "beh.append(a.fn(1) == 2)\n"),
+    "closure-over-vertex": (_PLAIN, "a.fn = (lambda v: (lambda: v.i))(b)\n", "beh.append(a.fn() == 2 and a.fn.__closure__[0].cell_contents is b)\n"),
+    "function-in-neighbour-memo-key": (
+        _PLAIN + "def only_big(e, v2):\n    return v2.i > 1\n",
+        "from edgegraph.traversal import helpers\nVertex.NEIGHBOR_CACHING = True\nhelpers.neighbors(a, filterfunc=only_big)\n",
+        "from edgegraph.traversal import helpers\nbeh.append([x.i for x in helpers.neighbors(a)] == [2])\n"),
+}
+for _k, (_c, _s, _q) in MAIN_EXTRAS.items():
+    MAIN_SHAPES[_k] = _c
+
 _MAIN_DUMP = r"""
 import sys, base64, json
 from edgegraph.structure import Vertex, Universe, DirectedEdge
@@ -471,6 +484,7 @@ b = MyV(attributes={"i": 2}, universes=[u])
 c = Vertex(attributes={"i": 3}, universes=[u])
 e1 = E(a, b); e2 = E(b, a); e3 = DirectedEdge(b, c)
 a.tag = "t"
+%(setup)s
 root = {"universe": u, "vertex": a}[%(root)r]
 import dill
 blob = %(pickler)s.dumps(root, protocol=%(proto)d)
@@ -503,6 +517,7 @@ if hasattr(type(a), "make"):
     beh.append(type(a).make(attributes={"i": 4}).twice == 8 and type(a).count == 3)
 if type(a.links[0]).__qualname__ == "MyE":
     beh.append(a.links[0].weight() == 7)
+%(check)s
 print(json.dumps({"structure": ok, "behaviour": all(beh), "beh": beh}))
 """
 
@@ -522,7 +537,8 @@ def main_class_case(shape, root, proto, verbose=False):
 
 def _main_class_run(shape, root, proto, pickler, verbose=False):
     env = dict(os.environ)
-    dump_src = _MAIN_DUMP % dict(classes=MAIN_SHAPES[shape], root=root, proto=proto, pickler=pickler)
+    setup, chk = MAIN_EXTRAS.get(shape, ("", "", ""))[1:]
+    dump_src = _MAIN_DUMP % dict(classes=MAIN_SHAPES[shape], root=root, proto=proto, pickler=pickler, setup=setup)
     try:
         p = subprocess.run([sys.executable, "-c", dump_src], capture_output=True, text=True, env=env,
                            timeout=MAIN_TIMEOUT)
@@ -535,7 +551,7 @@ def _main_class_run(shape, root, proto, pickler, verbose=False):
         return "dumps-raised-" + last.split(":")[0].split(".")[-1]
     payload = p.stdout.strip().splitlines()[-1]
     try:
-        q = subprocess.run([sys.executable, "-c", _MAIN_LOAD % dict(root=root)], input=payload, capture_output=True,
+        q = subprocess.run([sys.executable, "-c", _MAIN_LOAD % dict(root=root, check=chk)], input=payload, capture_output=True,
                            text=True, env=env, timeout=MAIN_TIMEOUT)
     except subprocess.TimeoutExpired:
         return "loads-did-not-terminate"
